@@ -773,7 +773,10 @@ func (db *DB) searchAll(o Object, field, operator string, value interface{}, con
 		return &Search{db: db, err: fmt.Errorf("%w, cannot cast %T(%v) to %s", ErrCasting, search.Value, search.Value, fd.cast())}
 	}
 
-	for obj, err := iter.next(); err == nil && err != ErrEOI; obj, err = iter.next() {
+	// err must be the one returned below: an object which cannot be read ends
+	// the scan, and what has been found until then is not the result
+	var obj Object
+	for obj, err = iter.next(); err == nil; obj, err = iter.next() {
 		var test *indexedField
 		var value interface{}
 		var ok bool
